@@ -147,12 +147,13 @@ func bh(b *types.Block) string {
 // ---------------------------------------------------------------- hostile message generation
 
 type hostile struct {
-	ch    byte
-	bytes []byte
-	more  []wire // follow-up messages
-	vote  *types.Vote
-	desc  string
-	legit bool // well-formed AND correctly signed by a current validator / a valid part: may change the state
+	ch      byte
+	bytes   []byte
+	more    []wire // follow-up messages
+	vote    *types.Vote
+	desc    string
+	legit   bool // well-formed AND correctly signed by a current validator / a valid part: may change the state
+	variant bool
 }
 
 type wire struct {
@@ -249,7 +250,7 @@ func genHostile(t *rapid.T, n *consim.Net, nd *consim.Node, signer int, pstate *
 	rs := nd.CS.GetRoundState()
 	kinds := []string{"bytes", "newroundstep", "commitstep", "proposal", "proposalpol", "blockpart", "blockpart", "vote", "vote", "vote", "hasvote", "maj23", "votesetbits", "heartbeat", "mutated-valid", "forged-vote", "forged-vote", "forged-proposal", "forged-part", "nrs-aligned", "nrs-aligned", "commitstep-aligned", "pol-setup", "near-limit-part"}
 	if signer >= 0 && string(rs.Validators.GetProposer().Address) == string(n.Vals[signer].Addr) && rs.Proposal == nil {
-		kinds = append(kinds, "p-header", "p-header", "p-header", "p-block", "p-block", "p-block", "p-block")
+		kinds = append(kinds, "p-header", "p-header", "p-header", "p-block", "p-block", "p-block", "p-block", "p-variant", "p-variant", "p-variant")
 	}
 	kind := rapid.SampledFrom(kinds).Draw(t, "mkind")
 	if prefer != "" && rapid.Bool().Draw(t, "preferred") {
@@ -401,6 +402,50 @@ func genHostile(t *rapid.T, n *consim.Net, nd *consim.Node, signer int, pstate *
 		}
 		h.bytes = enc(&consensus.BlockPartMessage{Height: genHeight(t, rs.Height, "h"), Round: genInt(t, rs.Round, "r"), Part: part})
 		h.desc = fmt.Sprintf("blockpart idx=%d", part.Index)
+	case "p-variant":
+		// The proposer gives everybody else a valid block and the victim an EQUAL-HASH VARIANT of it: bytes that differ only
+		// in a field the block hash does not cover (Commit.Hash covers the precommits, not LastCommit.BlockID), so the part-set
+		// header differs while Block.Hash() is the same.  The others vote for the original; the victim holds the variant
+		// when it sees their +2/3 precommits.
+		h.ch = consensus.DataChannel
+		msgs, blk := n.ByzProposal(signer, nd, rs.Height, rs.Round, -1, types.BlockID{}, 7, nil)
+		if blk == nil || len(msgs) == 0 {
+			return nil
+		}
+		var variant *types.Block
+		if bz, err := ser.EncodeToBytes(blk); err != nil || ser.DecodeBytes(bz, &variant) != nil || variant == nil || variant.LastCommit == nil {
+			return nil
+		}
+		variant.LastCommit.BlockID = types.BlockID{Hash: common.BytesToHash([]byte("variant")), PartsHeader: types.PartSetHeader{Total: 1, Hash: []byte("v")}}
+		vbz, err := ser.EncodeToBytes(variant)
+		if err != nil {
+			return nil
+		}
+		var chk *types.Block
+		if ser.DecodeBytes(vbz, &chk) != nil || chk.Hash() != blk.Hash() {
+			return nil // not an equal-hash variant (the hash covers the field after all)
+		}
+		ps := types.NewPartSetFromData(vbz, consim.PartSize)
+		if ps.HasHeader(msgs[0].(*consensus.ProposalMessage).Proposal.BlockPartsHeader) {
+			return nil
+		}
+		p := types.NewProposal(rs.Height, rs.Round, ps.Header(), -1, types.BlockID{})
+		p.Type = types.ProposalTypeNormal
+		p.Signature = sign(p.SignBytes(consim.ChainID))
+		h.legit = true
+		h.bytes = enc(&consensus.ProposalMessage{Proposal: p})
+		for i := 0; i < ps.Total(); i++ {
+			h.more = append(h.more, wire{consensus.DataChannel, enc(&consensus.BlockPartMessage{Height: rs.Height, Round: rs.Round, Part: ps.GetPart(i)})})
+		}
+		// everybody else gets the original from the same proposer, and its votes for it
+		for _, m := range msgs {
+			n.Inject(signer, m)
+		}
+		id := types.BlockID{Hash: blk.Hash(), PartsHeader: msgs[0].(*consensus.ProposalMessage).Proposal.BlockPartsHeader}
+		n.Inject(signer, &consensus.VoteMessage{Vote: n.SignedVote(signer, types.VoteTypePrevote, rs.Height, rs.Round, id)})
+		n.Inject(signer, &consensus.VoteMessage{Vote: n.SignedVote(signer, types.VoteTypePrecommit, rs.Height, rs.Round, id)})
+		h.variant = true
+		h.desc = fmt.Sprintf("p-variant h=%d r=%d (same block hash, other part-set header)", rs.Height, rs.Round)
 	case "p-header":
 		// the round's proposer signs a proposal for the current height/round whose part-set header is absurd
 		h.ch = consensus.DataChannel
